@@ -2,7 +2,7 @@ SPEC = {
     'id': 'C12',
     'harness': 'hC12',
     'coq_dir': 'C12',
-    'claimed': False,
+    'claimed': True,
     'theorems': ['C12_write_allowed_implies_spec', 'C12_write_allowed_full_refuted',
                  'C12_write_allowed_implies_spec_partial', 'C12_key_executor_unique',
                  'C12_own_namespace_always_allowed', 'C12_success_implies_all_keys_allowed',
